@@ -1,7 +1,7 @@
 import Wayfind.Proofs.Unique5
 import Wayfind.Proofs.RoutesNodup
 import Wayfind.Generated.Facts
-import Wayfind.Proofs.DrawText2
+import Wayfind.Proofs.DrawText3
 
 /-! # C15 — the printed tree is the canonical compressed radix tree of the live routes
 On every router reachable through the API the tree is **canonical** (`C15_tree_canonical`; the predicates are
@@ -109,3 +109,11 @@ theorem C15_printed_marked_paths_are_routes (root : Node) (h : Node.drawable roo
     ∃ ds, (Node.lines "" "" true true root).map (fun l => parseLineC l.toList) = ds.map some ∧
       markedTextsC ds = ((Node.routes root).filter (fun rt => !rt.parts.isEmpty)).map (fun rt => partsText rt.parts) :=
   ⟨Node.dents 0 [] root, root_lines_parse root h, marked_texts_of_dents root h⟩
+
+/-- **The printed text determines the tree of printed labels**: two trees whose labels can be read back and which print the
+same lines have the same nodes — label as printed, mark — with the same children in the same order (`Node.kidTrees`: the
+seven child vectors one after the other, as the drawing shows them). So the drawing loses nothing but what `state.key()`
+loses (the kind of a child is visible in its label, `{…}` / `{*…}` / `:constraint`; a catch-all is a `{*…}` leaf). -/
+theorem C15_printed_text_determines_tree (n1 n2 : Node) (h1 : Node.drawable n1 = true) (h2 : Node.drawable n2 = true)
+    (h : Node.lines "" "" true true n1 = Node.lines "" "" true true n2) : Node.kidTrees n1 = Node.kidTrees n2 :=
+  lines_determine_tree n1 n2 h1 h2 h
